@@ -540,6 +540,87 @@ func c13HeldPayload(msize uint32, cancelled, dotu bool) Scenario {
 	}}
 }
 
+// c13HeldAcrossDisconnect: a Twrite is held inside the implementation when its
+// connection goes away; other connections come and go, each sending more than a whole
+// receive buffer. The implementation then looks at the payload: what the first client
+// sent. (Several same-tag Twrites: the ones queued behind the held one are checked too.)
+func c13HeldAcrossDisconnect(msize uint32, later int, dotu bool) Scenario {
+	name := fmt.Sprintf("held-payload msize=%d across disconnect, %d later connections dotu=%v", msize, later, dotu)
+	return Scenario{Name: name, Run: func(rc *RunCtx) *Result {
+		res := &Result{Exhaustive: true}
+		var fail string
+		body := func() {
+			s := newSess(SrvOpt{Msize: msize, Dotu: dotu})
+			L := int(msize) - 24
+			s.rpcOK(twalk(s.tag(), 0, 1, "g"), wire.Rwalk)
+			s.rpcOK(&wire.Msg{Type: wire.Topen, Tag: s.tag(), Fid: 1, Mode: 1}, wire.Ropen)
+			var datas [][]byte
+			g := vs.NewSem(0)
+			s.fs.Script[reqKey{0, 50, 0}] = &Action{Gate: g}
+			var ms []*wire.Msg
+			for k := 0; k < 3; k++ {
+				d := make([]byte, L-k)
+				for i := range d {
+					d[i] = byte(0x80 | (i + k*17))
+				}
+				datas = append(datas, d)
+				ms = append(ms, &wire.Msg{Type: wire.Twrite, Tag: 50, Fid: 1, Offset: uint64(k), Data: d})
+			}
+			s.c.Send(dotu, ms...)
+			vs.Idle()
+			s.c.End.Close()
+			vs.Idle()
+			ver := "9P2000"
+			if dotu {
+				ver = "9P2000.u"
+			}
+			for n := 0; n < later; n++ {
+				c := s.h.Connect()
+				c.Version(msize, ver)
+				for i := 0; i < 12; i++ {
+					c.Send(dotu, &wire.Msg{Type: wire.Twrite, Tag: uint16(100 + i), Fid: 99, Offset: 0, Data: bytes.Repeat([]byte{'X'}, L)})
+					vs.Idle()
+				}
+				if n%2 == 0 {
+					c.End.Close()
+					vs.Idle()
+				}
+			}
+			g.Release()
+			vs.Idle()
+			var hashes []string
+			for _, e := range s.fs.Log {
+				if e.Conn == 0 && e.Tag == 50 && e.Kind == "data" {
+					hashes = append(hashes, e.Args)
+				}
+			}
+			for k, h := range hashes {
+				if h != hashBytes(datas[k]) {
+					fail = fmt.Sprintf("Twrite number %d under the tag: the payload was %s when the implementation looked at it, the client sent %s (its connection had gone, %d later connections had sent %d bytes each)", k+1, h, hashBytes(datas[k]), later, 12*(L+23))
+					return
+				}
+			}
+			if len(hashes) == 0 {
+				fail = "the held Twrite never got to look at its payload"
+			}
+		}
+		x := vs.Run(nil, body, vs.Options{})
+		res.Evals++
+		res.Nontrivial++
+		res.States++
+		res.Traces++
+		if len(x.Panics) > 0 {
+			fail = "panic: " + x.Panics[0].Value
+		} else if len(x.Fails) > 0 && fail == "" {
+			fail = "harness: " + x.Fails[0]
+		}
+		if fail != "" {
+			res.Findings = append(res.Findings, Finding{Sig: "C13/held-payload-across-disconnect/" + sigWords(fail), Msg: name + ": " + fail})
+		}
+		return res
+	}}
+}
+
 func c13Scenarios(tier string) []Scenario {
 	var out []Scenario
 	sessions := []c13Session{{msize: 64, dotu: false, nreq: 40, gateEvery: 10, shift: -1}, {msize: 96, dotu: true, nreq: 30, gateEvery: 0, shift: 7}}
@@ -579,6 +660,7 @@ func c13Scenarios(tier string) []Scenario {
 		}
 	}
 	out = append(out, c13HeldPayload(64, true, false), c13HeldPayload(64, false, true), c13HeldPayload(256, true, true))
+	out = append(out, c13HeldAcrossDisconnect(64, 1, false), c13HeldAcrossDisconnect(64, 3, true), c13HeldAcrossDisconnect(256, 2, false))
 	if tier == "thorough" {
 		out = append(out, c13HeldPayload(256, false, false), c13HeldPayload(96, true, false), c13HeldPayload(1024, true, false))
 	}
